@@ -1,10 +1,13 @@
 pub mod common;
 pub mod worlds;
+pub mod c02;
 pub mod c03;
 pub mod c04;
+pub mod c14;
+pub mod c15;
 
 use crate::framework::CheckSpec;
 
 pub fn all_specs() -> Vec<CheckSpec> {
-  vec![c03::spec(), c04::spec()]
+  vec![c02::spec(), c03::spec(), c04::spec(), c14::spec(), c15::spec()]
 }
